@@ -32,9 +32,16 @@ RULE = ("configurations = endpoint (token, introspection, token_revocation, push
         "another client, smuggled 'authenticated' parameter), the identity matrix (a genuine Basic / client_secret_jwt / "
         "private_key_jwt RS+ES / bearer header / bearer body / request object credential of client A x body client_id naming "
         "another confidential client, the public client, an unregistered id, or A itself; two complete credentials of two "
-        "clients in one request: judged is the client_id the PARSED request carries), then random pairs of faults; plus "
-        "a deterministic processing block (revocation of a fresh token of either client and PAR: each credential kind x "
-        "body client_id, parse_request then process_request, judged: whose token was revoked / for whom a request was "
+        "clients in one request: judged is the client_id the PARSED request carries), the inner-claims matrix (an assertion / "
+        "request object that client A signs with its OWN secret or registered key, HS/RS/ES, whose claims disagree with each "
+        "other or with the signer: sub of another registered / the public / an unknown client, sub absent or empty, azp or "
+        "client_id claim naming another client, all three, iss absent with sub of A or B, iss of B or of an unknown id "
+        "signed by A x body client_id of A / B / absent: judged from who signed - processed as the signer or refused, "
+        "never as the client a claim names), then random pairs of faults; plus "
+        "a deterministic processing block (revocation of a fresh token of either client, redeeming a fresh authorization "
+        "code of either client, and PAR: each credential kind x "
+        "body client_id, and each inner-claim variant of an assertion signed by the holder, parse_request then "
+        "process_request, judged: whose token was revoked / whose code was redeemed / for whom a request was "
         "stored) and client_credentials at an OAuth2 token endpoint (judged: owner of the issued token); plus a deterministic block of "
         "long-lived assertions (exp +1 h / +1 day) replayed after clock advances of 0/599/600/601/3599 s/12 h with 0 or 3 "
         "fresh assertions in between, at the same and at another endpoint; a case is non-trivial "
@@ -203,6 +210,13 @@ class World:
         return sm[sid].mint_token(session_id=sid, context=self.c, token_class="access_token",
                                   token_handler=sm.token_handler["access_token"]).value
 
+    def mint_code(self, cid):
+        """a fresh authorization code of cid's session (redeemable once at the token endpoint)"""
+        sm = self.c.session_manager
+        sid, _code = self.sess[cid]
+        return sm[sid].mint_token(session_id=sid, context=self.c, token_class="authorization_code",
+                                  token_handler=sm.token_handler["authorization_code"]).value
+
     def token_revoked(self, value):
         info = self.c.session_manager.get_session_info_by_token(value, grant=True, handler_key="access_token")
         return bool(info["grant"].get_token(value).revoked)
@@ -260,7 +274,10 @@ def sign_jwt(world, spec):
     for k in ("iss", "aud", "exp", "nbf", "iat", "jti"):
         if spec.get(k) is not None:
             claims[k] = spec[k]
-    claims["sub"] = spec.get("iss") or "nobody"
+    sub, azp, cid = inner_claims(spec)
+    for k, v in (("sub", sub), ("azp", azp), ("client_id", cid)):
+        if v is not None:
+            claims[k] = v
     kind, kv = spec["key"]
     if spec["alg"] == "none":
         return JWS(json.dumps(claims), alg="none").sign_compact([])
@@ -269,6 +286,28 @@ def sign_jwt(world, spec):
     else:
         key = world.keys["%s%d" % (kind, kv)]
     return JWS(json.dumps(claims), alg=spec["alg"]).sign_compact([key])
+
+
+def inner_claims(spec):
+    """(sub, azp, client_id) claims INSIDE the signed JWT.  A spec that does not say otherwise is what every
+    client library produces: sub = iss (historically "nobody" when there is no iss), no azp, no client_id claim."""
+    sub = spec["sub"] if "sub" in spec else (spec.get("iss") or "nobody")
+    return sub, spec.get("azp"), spec.get("cid_claim")
+
+
+def signers_of(world, spec):
+    """generator ground truth: the registered clients whose key material MADE this signature (the current client
+    secret for HS, a key registered in the key jar for RS / ES) - whatever the claims inside say."""
+    if not isinstance(spec, dict) or spec["alg"] == "none":
+        return set()
+    kind, kv = spec["key"]
+    out = set()
+    if spec["alg"] == "HS256":
+        if kind == "sym":
+            out = {cid for cid, rec in world.c.cdb.items() if rec.get("client_secret") is not None and rec["client_secret"] == kv}
+    else:
+        out = {cid for cid, ks in world.kj_iss.items() if (kind, kv) in ks and kind != "oct"}
+    return out
 
 
 def sym_bytes(world, name):
@@ -337,9 +376,11 @@ def cq_token(spec):
     kind, kv = spec["key"]
     key = "(KSym %s)" % coq_str(kv) if kind == "sym" else "(%s %s)" % ("KRsa" if kind == "rsa" else "KEc", coq_nat(kv))
     aud = "(@None (list pystr))" if spec.get("aud") is None else "(Some %s)" % coq_list([coq_str(a) for a in spec["aud"]], "pystr")
-    return ("(Some (Jwt {| j_alg := %s; j_key := %s; j_iss := %s; j_aud := %s; j_exp := %s; j_nbf := %s; j_iat := %s; "
-            "j_jti := %s |}))" % (alg, key, cq_optstr(spec.get("iss")), aud, cq_optz(spec.get("exp")),
-                                  cq_optz(spec.get("nbf")), cq_optz(spec.get("iat")), cq_optstr(spec.get("jti"))))
+    sub, azp, cid = inner_claims(spec)
+    return ("(Some (Jwt {| j_alg := %s; j_key := %s; j_iss := %s; j_sub := %s; j_azp := %s; j_cid := %s; j_aud := %s; "
+            "j_exp := %s; j_nbf := %s; j_iat := %s; j_jti := %s |}))" % (
+                alg, key, cq_optstr(spec.get("iss")), cq_optstr(sub), cq_optstr(azp), cq_optstr(cid), aud,
+                cq_optz(spec.get("exp")), cq_optz(spec.get("nbf")), cq_optz(spec.get("iat")), cq_optstr(spec.get("jti"))))
 
 
 def classify_basic_raw(raw):
@@ -598,6 +639,29 @@ def oracle_identity(ctx, world, cfg, rq, now, rec, seen, epn):
             places.append(("the request parse_request hands to do_post_parse_request", seen["post_req_client"], seen["generic"][1]))
         if "final" in seen:
             places.append(("the request parse_request returns", seen["final"][0], seen["final"][1]))
+    # (I') the claims INSIDE a signed assertion / request object establish nothing: the identity is the signer's
+    # (generator ground truth: whose key material made the signature), never the client that sub / azp / the
+    # client_id claim name
+    for field in ("assertion", "request"):
+        spec = rq.get(field)
+        if not isinstance(spec, dict):
+            continue
+        signers = signers_of(world, spec)
+        sub, azp, cid = inner_claims(spec)
+        named = {"sub": sub, "azp": azp, "client_id": cid}
+        odd = {k: v for k, v in named.items() if v != spec.get("iss") and not (k != "sub" and v is None)}
+        if odd or not (signers and spec.get("iss") in signers):
+            ctx.count("inner-claims:%s:%s" % (field, "inconsistent" if odd else "iss-not-the-signer"))
+        for where, ident, flagged in places:
+            if flagged and ident not in signers and ident not in proved and ident in [v for v in named.values() if v is not None]:
+                ctx.violation("processed-as-inner-claim:" + "+".join(sorted(k for k, v in named.items() if v == ident)),
+                              "%s: %s carries client_id=%r with authenticated=True; the %s was made with the key material of "
+                              "%r (iss=%r) and merely NAMES %r in its %s claim(s) (body client_id %r): the request is processed "
+                              "as a client that did not sign the credential" % (
+                                  epn, where, ident, "client_assertion" if field == "assertion" else "request object",
+                                  sorted(signers), spec.get("iss"), ident,
+                                  "/".join(sorted(k for k, v in named.items() if v == ident)), rq.get("client_id")), rec)
+                return False
     for where, ident, flagged in places:
         if flagged and ident not in proved:
             ctx.violation("identity-not-proved",
@@ -904,6 +968,62 @@ def identity_matrix(world, cfg, now, tag):
     return F
 
 
+INNER_SIGNERS = [("hs1", "client_1", "HS256"), ("hs2", "client_2", "HS256"), ("rs2", "client_2", "RS256"),
+                 ("es4", "client_4", "ES256")]
+
+
+def inner_variants(a, b):
+    """the claims inside an assertion that client `a` signs with its own key, made inconsistent with each other
+    or with who signed; `b` is another registered confidential client.  -> [(name, overrides of good_jwt(a))]
+    ("key" None = a's own key)"""
+    return [
+        ("sub-other", {"sub": b}),
+        ("sub-public", {"sub": "client_3"}),
+        ("sub-unknown", {"sub": "nobody"}),
+        ("sub-absent", {"sub": None}),
+        ("sub-empty", {"sub": ""}),
+        ("azp-other", {"azp": b}),
+        ("cid-other", {"cid_claim": b}),
+        ("sub+azp+cid-other", {"sub": b, "azp": b, "cid_claim": b}),
+        ("sub-other-azp-self", {"sub": b, "azp": a, "cid_claim": a}),
+        ("iss-absent-sub-self", {"iss": None, "sub": a}),
+        ("iss-absent-sub-other", {"iss": None, "sub": b, "cid_claim": b}),
+        ("iss-other-sub-self", {"iss": b, "sub": a}),          # iss of b, signed with a's key
+        ("iss-other-sub-other", {"iss": b, "sub": b}),
+        ("iss-unknown-sub-self", {"iss": "nobody", "sub": a}),
+        ("iss-unknown-sub-other", {"iss": "nobody", "sub": b}),
+    ]
+
+
+def inner_claims_matrix(world, cfg, now, tag, signers=INNER_SIGNERS, fields=("assertion", "request")):
+    """assertions (request objects) signed by client A with A's OWN key material whose inner claims (iss, sub,
+    azp, client_id) disagree with each other or with the signer x body client_id of A / another client / absent:
+    the request is processed as A (the signer = iss) or refused, never as the client a claim merely names."""
+    F = []
+    for sname, a, alg in signers:
+        b = "client_2" if a != "client_2" else "client_1"
+        own = good_jwt(world, cfg, a, alg, now, "x")["key"]
+        for vname, over in inner_variants(a, b):
+            for body in (None, a, b):
+                for field in fields:
+                    if field == "request" and (sname not in ("hs1", "rs2") or vname not in (
+                            "sub-other", "sub-absent", "sub+azp+cid-other", "iss-absent-sub-other", "iss-other-sub-self")):
+                        continue
+                    jti = "n-%s-%s-%s-%s-%s" % (field[0], sname, vname, body, tag)
+                    spec = good_jwt(world, cfg, a, alg, now, jti, **dict(over, key=own))
+                    if field == "request":
+                        # the claims of a request object are request PARAMETERS: verify_request merges its client_id
+                        # claim into the request and Authorization._post_parse_request refuses the mismatch (C16's
+                        # subject); only the claims that are not parameters (sub, azp) are varied here
+                        spec.pop("cid_claim", None)
+                    rq = {field: spec}
+                    if body is not None:
+                        rq["client_id"] = body
+                    F.append(("inner:%s:%s-%s-body-%s" % (field, sname, vname, "absent" if body is None else
+                                                           ("signer" if body == a else "other")), rq))
+    return F
+
+
 def merge(a, b):
     r = dict(a)
     for k, v in b.items():
@@ -1009,15 +1129,17 @@ def run_history(ctx, world, cfg, mode, rng, clock, tag, cases):
     gen = genuine_requests(world, cfg, now, tag)
     mat = fault_matrix(world, cfg, now, tag)
     idm = identity_matrix(world, cfg, now, tag)
+    inm = inner_claims_matrix(world, cfg, now, tag)
     if mode == "matrix":
-        plan = gen + mat + idm
+        plan = gen + mat + idm + inm
     elif mode == "half":
-        plan = gen + rng.sample(mat, 40) + rng.sample(idm, 20)
+        plan = gen + rng.sample(mat, 40) + rng.sample(idm, 20) + rng.sample(inm, 40)
     elif mode == "genuine":
         plan = gen + [f for f in mat if f[0] in ("fault:exp-past", "fault:hs-other-clients-secret", "fault:basic-cross-secret",
-                                                  "fault:aud-wrong", "fault:smuggled-flag-client-id")] + rng.sample(idm, 4)
+                                                  "fault:aud-wrong", "fault:smuggled-flag-client-id")] + rng.sample(idm, 4) \
+            + rng.sample(inm, 6)
     else:
-        plan = rng.sample(gen, 8) + rng.sample(mat, 10) + rng.sample(idm, 6)
+        plan = rng.sample(gen, 8) + rng.sample(mat, 10) + rng.sample(idm, 6) + rng.sample(inm, 10)
     # random pairs of faults
     for i in range({"matrix": 6, "half": 3, "genuine": 1, "sampled": 4}[mode]):
         a, b = rng.sample(mat, 2)
@@ -1144,18 +1266,32 @@ def run_processed(ctx, world, cfg, rq, now, hist, proc):
         extra = {"token": tok}
     elif epn == "pushed_authorization":
         extra = {"redirect_uri": "https://%s.example.com/cb" % proc["holder"]}
+    elif epn == "token":
+        extra = {"code": world.mint_code(proc["victim"]), "redirect_uri": "https://%s.example.com/cb" % proc["victim"]}
     par_before = set(world.c.par_db.keys())
     term, rec, unmod = run_request(ctx, world, cfg, rq, now, hist, extra_body=extra, extra_rec={"proc": proc})
     parsed = world.last_parsed
-    done = None
+    done, resp = None, None
     if parsed is not None and hasattr(parsed, "get") and not parsed.get("error"):
         try:
-            r = ep.process_request(parsed)
+            resp = r = ep.process_request(parsed)
             done = ("ret", r.get("error") if hasattr(r, "get") else None)
         except Exception as e:
             done = ("exc", type(e).__name__)
     rec["processed"] = done
     proved = proved_identities(world, cfg, rq, now)
+    if epn == "token":
+        args = resp.get("response_args") if hasattr(resp, "get") else None
+        at = (args or {}).get("access_token")
+        ctx.count("processing:code:" + ("token-issued" if at else "no-token"))
+        if at:
+            owner = world.c.session_manager.get_session_info_by_token(at, handler_key="access_token")["client_id"]
+            rec["issued_token_owner"] = owner
+            if owner not in proved or proc["victim"] not in proved:
+                ctx.violation("acted-for-unproved-identity:code",
+                              "token: the authorization code issued to %r was redeemed - an access token owned by %r came "
+                              "out - by a request whose only credentials are those of %r (body client_id %r)"
+                              % (proc["victim"], owner, sorted(proved.items()), rq.get("client_id")), rec)
     if tok is not None:
         revoked = world.token_revoked(tok)
         rec["victim_token_revoked"] = revoked
@@ -1178,11 +1314,35 @@ def run_processed(ctx, world, cfg, rq, now, hist, proc):
     return term, rec, unmod
 
 
+PROC_VARIANTS = ("sub-other", "sub-absent", "sub-unknown", "azp-other", "cid-other", "sub+azp+cid-other",
+                 "iss-absent-sub-other", "iss-other-sub-self", "iss-other-sub-other")
+
+
+def inner_credentials(world, cfg, tag, signers=INNER_SIGNERS[:3]):
+    """(name, signer, maker) like identity_credentials: assertions the holder signs with its OWN key whose inner
+    claims name the other client (the owner of the token to revoke / the client to push a request for)."""
+    out = []
+    for sname, a, alg in signers:
+        if a not in world.secret or (alg != "HS256" and len(world.kj_iss.get(a, [])) < 2):
+            continue
+        b = "client_2" if a != "client_2" else "client_1"
+        own = good_jwt(world, cfg, a, alg, NOW0, "x")["key"]
+        for vname, over in inner_variants(a, b):
+            if vname in PROC_VARIANTS:
+                out.append(("inner-%s-%s" % (sname, vname), a,
+                            lambda n, a=a, alg=alg, over=over, own=own, sname=sname, vname=vname:
+                            {"assertion": good_jwt(world, cfg, a, alg, NOW0, "ip-%s-%s-%s%s" % (tag, sname, vname, n),
+                                                   **dict(over, key=own))}))
+    return out
+
+
 def identity_processing(ctx, world, clock, cases):
-    """Deterministic (no rng): at the revocation and the pushed authorization endpoint, every kind of genuine
-    credential of client A x body client_id in {absent, A, another registered client, the token's owner, an
-    unregistered id} (revocation: x the owner of the token to revoke), parse_request followed by process_request."""
-    for epn in ("token_revocation", "pushed_authorization"):
+    """Deterministic (no rng): at the revocation, the pushed authorization and the token endpoint (redeeming a
+    fresh authorization code), every kind of genuine credential of client A, and every inner-claim variant of an
+    assertion A signs (sub / azp / client_id claim naming the other client, iss absent, iss of the other client),
+    x body client_id in {absent, A, another registered client, the token's owner, an unregistered id} (revocation /
+    code: x the owner of the token to revoke / the code to redeem), parse_request followed by process_request."""
+    for epn in ("token_revocation", "pushed_authorization", "token"):
         cfg = {"ep": epn, "methods": list(FULL), "issuer_target": False, "clients": {}}
         world.configure(cfg)
         clock.now = NOW0
@@ -1190,11 +1350,12 @@ def identity_processing(ctx, world, clock, cases):
         steps, recs = [], []
         jdb0 = list(world.c.jti_db.keys())
         creds = [c for c in identity_credentials(world, cfg, NOW0, "P" + epn[:3]) if c[0] != "request-param2"]
-        if epn == "pushed_authorization":
+        if epn in ("pushed_authorization", "token"):
             creds = [c for c in creds if not c[0].startswith("bearer")]
+        creds = creds + inner_credentials(world, cfg, "P" + epn[:3])
         n = 0
         for name, holder, mk in creds:
-            for victim in (("client_1", "client_2") if epn == "token_revocation" else (None,)):
+            for victim in (("client_1", "client_2") if epn in ("token_revocation", "token") else (None,)):
                 other = "client_2" if holder != "client_2" else "client_1"
                 bodies = [None, holder, other, "nobody"] + (["client_3"] if victim is None else [])
                 for body in bodies:
@@ -1224,6 +1385,7 @@ def identity_processing(ctx, world, clock, cases):
                           {"cfg": cfg, "variant": world.variant, "tag": "process-" + epn, "steps": recs}))
     world.eps["pushed_authorization"].client_authn_method = list(world.default_methods["pushed_authorization"])
     world.eps["token_revocation"].client_authn_method = list(world.default_methods["token_revocation"])
+    world.eps["token"].client_authn_method = list(world.default_methods["token"])
 
 
 class CCWorld:
@@ -1263,6 +1425,12 @@ def cc_requests(world, now):
                 if body is not None:
                     rq["client_id"] = body
                 out.append(("cc:%s-of-%s-body-%s" % (cname, holder, body), holder, rq))
+        for cname, _a, mk in inner_credentials(world, cfg, "cc", signers=[x for x in INNER_SIGNERS if x[1] == holder]):
+            for body in (None, holder, other):
+                rq = resolve_times(mk("-" + str(body)), now)
+                if body is not None:
+                    rq["client_id"] = body
+                out.append(("cc:%s-body-%s" % (cname, body), holder, rq))
         out.append(("cc:post-of-%s" % holder, holder, {"client_id": holder, "client_secret": s[holder]}))
         out.append(("cc:basic-of-%s+post-of-%s" % (holder, other), holder,
                     {"hdr": ("basic", "%s:%s" % (holder, s[holder])), "client_id": other, "client_secret": s[other]}))
